@@ -46,9 +46,14 @@ pub fn order_sensitive(exprs: &[&Expr]) -> bool {
 }
 
 pub fn arb_case04(depth: u32) -> BoxedStrategy<Case04> {
-    (vec(any::<u32>(), 0..500), 0usize..100_000, any::<bool>(), 0u8..7, any::<u64>())
-        .prop_map(move |(tape, root, alias, sep, seed)| {
-            let mut g = Gen::new(&tape, GenCfg { ill: 3, exclude: vec!["exec", "trigger", "now"], ..GenCfg::default() });
+    (vec(any::<u32>(), 0..500), 0usize..100_000, any::<bool>(), 0u8..7, any::<u64>()).prop_map(move |(tape, root, alias, sep, seed)| decode_case04(&tape, root, alias, sep, seed, depth)).boxed()
+}
+
+/// a case from a choice tape (shared by the proptest strategy and the libFuzzer target)
+pub fn decode_case04(tape: &[u32], root: usize, alias: bool, sep: u8, seed: u64, depth: u32) -> Case04 {
+    {
+        {
+            let mut g = Gen::new(tape, GenCfg { ill: 3, exclude: vec!["exec", "trigger", "now"], ..GenCfg::default() });
             let mut env = Env::top();
             let mut vars = Vec::new();
             for i in 0..g.tape.below(3) {
@@ -81,8 +86,8 @@ pub fn arb_case04(depth: u32) -> BoxedStrategy<Case04> {
             let n = 1 + g.tape.below(3);
             let inputs = (0..n).map(|_| if g.tape.chance(1, 6) { g.lit(Any, 2) } else { g.record() }).collect();
             Case04 { e, vars, macros, priors, inputs, spell: Spell { alias, sep: if sep > 2 { 0 } else { sep }, sugar: false, pad: false, seed } }
-        })
-        .boxed()
+        }
+    }
 }
 
 pub struct C04Eval;
